@@ -4,6 +4,11 @@ import json, os
 ROOT = os.path.dirname(os.path.dirname(os.path.abspath(__file__)))
 
 CHECKS = {
+ "C02": dict(
+   technique="property-based differential testing against an independent binary-format parser and coercion function (proptest, byte mutation)",
+   text="Differential search: the untyped decoder (from_bytes_with_types, get_value_with_type+done, from_bytes) is compared on generated (message, expected types) pairs with an independent implementation of the binary grammar and of the spec's coercion relation (subtyping for references as a greatest fixed point). Messages come from the harness's own encoder over random recursive wire types with layout variations and byte mutations; expected types are upgrade-step neighbours in both directions, opt-wrappings and fresh types. Exploration: deep combinations are sampled; two genuine deviations are listed as known findings.",
+   note="Trusts the harness's reading of spec/Candid.md (refmodel, ~2 kLoC); cases the spec leaves open are skipped and counted, not judged.",
+   ref="DESIGN.md §5 C02"),
  "C09": dict(
    technique="enumeration + property-based differential testing against an arithmetic (S)LEB128 reference (proptest, two build profiles)",
    text="Differential search: every nat/int decoder and encoder entry point is compared with an independent big-integer definition of (S)LEB128 on all strings up to 2 (quick) / 3 (thorough) bytes, on boundary families around 64 and 128 bits with every final byte and several padding tails, and on generated strings up to 40 bytes; run in a debug-assertion build and in a release-like build so both panics and silent wrap-around are visible. Exploration, not proof: strings outside the enumerated families are only sampled.",
